@@ -92,7 +92,7 @@ static volatile uint64_t cur_seed = 0; static volatile long cur_index = -1; stat
 static volatile int tainted = 0;
 static volatile unsigned long long g_runs_done = 0, g_nontrivial_done = 0;   // a violation was already found in this process: later crashes may be after-effects of abandoned, memory-unsafe runs
 static void crashHandler(int sig) {
-  char b[200]; int n = snprintf(b, sizeof b, "\n%s signal=%d index=%ld seed=%llu phase=%s\n", tainted ? "CRASH-TAINTED" : "CRASH", sig, (long)cur_index, (unsigned long long)cur_seed, cur_phase);
+  char b[640]; int n = snprintf(b, sizeof b, "\n%s signal=%d index=%ld seed=%llu phase=%s\n", tainted ? "CRASH-TAINTED" : "CRASH", sig, (long)cur_index, (unsigned long long)cur_seed, cur_phase);
   (void)!write(1, b, n);
   if (tainted) { n = snprintf(b, sizeof b, "STATS {\"runs\":%llu,\"nontrivial\":%llu,\"distinct_nontrivial\":0,\"steps\":0,\"switches\":0,\"simtime_s\":0,\"wall_s\":0,\"budget_exhausted\":0,\"faults\":{},\"probes\":{\"worker_died_after_violation\":1},\"violation_classes\":{},\"samples\":[]}\n", g_runs_done, g_nontrivial_done); (void)!write(1, b, n); }
   _exit(3);
@@ -224,13 +224,13 @@ static void extraCb(const RunSpec& s, const Result& r, void* c) { ExtraCtx* x = 
 
 int main(int argc, char** argv, const Harness& h) {
   uint64_t seed = 1; long runs = 1000, offset = 0, stride = 1; double seconds = 1e9; int tier = 0; const char* replay = nullptr; const char* outdir = "replays"; const char* hashOut = nullptr;
-  int shrinkBudget = 300; long one = -1; bool verbose = false; int maxCand = 6; const char* countFiles = nullptr; int countArg = 0;
+  int shrinkBudget = 300; long one = -1; uint64_t runSeed = 0; bool haveRunSeed = false; bool verbose = false; int maxCand = 6; const char* countFiles = nullptr; int countArg = 0;
   for (int i = 1; i < argc; ++i) {
     std::string a = argv[i];
     auto nxt = [&]() -> const char* { return i + 1 < argc ? argv[++i] : ""; };
     if (a == "--seed") seed = strtoull(nxt(), 0, 10); else if (a == "--runs") runs = atol(nxt()); else if (a == "--offset") offset = atol(nxt()); else if (a == "--stride") stride = atol(nxt());
     else if (a == "--seconds") seconds = atof(nxt()); else if (a == "--tier") { std::string t = nxt(); tier = (t == "thorough") ? 1 : 0; } else if (a == "--replay") replay = nxt();
-    else if (a == "--outdir") outdir = nxt(); else if (a == "--hashes") hashOut = nxt(); else if (a == "--shrink-budget") shrinkBudget = atoi(nxt()); else if (a == "--one") one = atol(nxt());
+    else if (a == "--outdir") outdir = nxt(); else if (a == "--hashes") hashOut = nxt(); else if (a == "--shrink-budget") shrinkBudget = atoi(nxt()); else if (a == "--one") one = atol(nxt()); else if (a == "--run-seed") { runSeed = strtoull(nxt(), 0, 10); haveRunSeed = true; one = 0; }
     else if (a == "-v") verbose = true; else if (a == "--count-distinct") { countFiles = ""; countArg = i + 1; break; }
     else { fprintf(stderr, "unknown argument %s\n", a.c_str()); return 2; }
   }
@@ -276,7 +276,7 @@ int main(int argc, char** argv, const Harness& h) {
   long first = (one >= 0) ? one : offset, last = (one >= 0) ? one + 1 : runs, step = (one >= 0) ? 1 : stride;
   for (long i = first; i < last; i += step) {
     if (wallNow() - t0 > seconds) break;
-    RunSpec spec; spec.seed = mix64(seed, (uint64_t)i);
+    RunSpec spec; spec.seed = haveRunSeed ? runSeed : mix64(seed, (uint64_t)i);
     cur_seed = spec.seed; cur_index = i; cur_phase = "search";
     alarm(120);
     h.generate(spec, tier);
